@@ -48,6 +48,8 @@ def run(prog, chk):
     from props import C04, C20
     C04.filter_closed(prog, chk)  # the text-* presentation attributes that are *moved* to the text element are standard SVG: the pass-through keeps them
     C20.evaluated_classes_are_split(prog, chk)  # d-text-outside / -inside / -vertical / -pre are looked up as whole classes, also when they come from a variable
+    from props import C03
+    C03.graphics_vocabulary(prog, chk)  # which elements take their character content as shape text
     from props import geomalg
     geomalg.check_sites(prog, chk, "C19")
     geomalg.check(prog, chk, "C19", floor=28)
